@@ -428,8 +428,12 @@ def main(chk):
         add('S2', list(G.s2_specs(True)), 110, uns)
     if chk.want('S3'):
         fills = (0, 5) if quick else G.BFFILL
-        add('S3', [sp for sp in G.s3_specs() if sp[3] in fills], 110)
-        add('S3', [sp for sp in G.s3_specs(True) if sp[3] in fills], 110, uns)
+
+        def keep(sp):       # quick: two fillers, plus the filler that puts the field at the very top of its storage unit
+            t = G.BYAB[sp[1]]
+            return sp[3] in fills or sp[3] + sp[2] == (8 if t is G.BOOL else t.bits)
+        add('S3', [sp for sp in G.s3_specs() if keep(sp)], 110)
+        add('S3', [sp for sp in G.s3_specs(True) if keep(sp)], 110, uns)
     if chk.want('S4'):
         trees = []
         maxn = 4 if quick else 5
